@@ -308,6 +308,9 @@ func vary(t *rapid.T, groups []opGroup, target val.V) ([]opGroup, string) {
 				if gen.Chance(t, "leadingZero", 20) {
 					op["path"] = prefix + "/0" + tok
 				}
+				if gen.Chance(t, "signed", 25) {
+					op["path"] = prefix + "/" + gen.Pick(t, "sign", []string{"+", "-"}) + tok
+				}
 				if gen.Chance(t, "dashInside", 30) {
 					// "-" where an element has to be named, followed by more tokens
 					op["path"] = prefix + "/-/" + tok
